@@ -43,6 +43,7 @@ for _T in TEMPLATES:
     _T.setdefault("kwdeps", {})
 
 _COUNTER = itertools.count(1)
+FAIL_SETUP = {"on": False}
 POISONED = False      # an operation hung in this process (a lock may be held for good): nothing more is run here
 OP_TIMEOUT = 30
 
@@ -99,6 +100,9 @@ def build(D, is_async=False):
         def mk(k=k):
             if D["kind"][k - 1] == "setup":
                 def f(*a, **kw):
+                    if FAIL_SETUP["on"]:
+                        FAIL_SETUP["on"] = False        # the first setup node entered by a `setupfail` operation raises
+                        raise Injected(k)
                     c = next(_COUNTER)
                     return None if k in nonefn else ("s", k, c, tuple(a) + tuple(kw[x] for x in sorted(kw)))
             else:
@@ -309,6 +313,14 @@ class History:
             kw["target_nodes"] = self.ids(t)
         self.observe("setup", i, lambda: self.run(lambda: self.inst[i].setup(**kw)), extra={"r": r, "xx": xx, "t": t})
 
+    def op_setupfail(self, i):
+        """setup() during which the first setup node that is entered raises: nothing is stored, and the instance works on."""
+        FAIL_SETUP["on"] = True
+        try:
+            self.observe("setupfail", i, lambda: self.run(lambda: self.inst[i].setup()))
+        finally:
+            FAIL_SETUP["on"] = False
+
     def sel_kwargs(self, r, xx, t, dep):
         kw = {}
         if dep != -1:
@@ -457,7 +469,7 @@ class History:
     def apply(self, op):
         if getattr(self, "poisoned", False):
             return
-        if op[0] in ("call", "setup", "exnew", "copy", "compose", "config", "restart", "gsetup") and op[1] not in self.inst:
+        if op[0] in ("call", "setup", "setupfail", "exnew", "copy", "compose", "config", "restart", "gsetup") and op[1] not in self.inst:
             return  # the instance does not exist (yet): the operation is not part of this history
         getattr(self, "op_" + op[0])(*op[1:])
 
@@ -493,6 +505,9 @@ def alphabet(D, rng):
           ("exnew", 1, 4, -1, -1, mask([mid]), -1, 1), ("exrun", 4, full, 1),    # the same file rewritten with other content
           ("restart", 1, 1, -1, -1, mask([leaf])), ("restart", 1, 2), ("restart", 1, 2, -1, -1, mask([mid])),
           ("restart", 1, 1, -1, -1, -1, mask([leaf]))]
+    # restarts whose selection starts at a root: what the re-run nodes need from outside the selection comes from the file
+    roots = [k for k in range(1, n + 1) if not D["deps"][k - 1] and not D["const"][k - 1] and not D["argof"][k - 1]]
+    A += [("restart", 1, 1, mask([r])) for r in roots[:2]]
     return A
 
 
